@@ -354,7 +354,9 @@ func (p *schedProxy) MarkAsDispatched(ctx context.Context, id string) error {
 		p.w.setHookFault(hf)
 		err = p.w.target.MarkAsDispatched(ctx, id)
 		p.w.setHookFault(false)
-		if f == "fa" {
+		// "fault after effect": the call took effect and then reports an error. With a context that is
+		// already cancelled the repository refuses on its own, without effect: its own error stands.
+		if f == "fa" && (p.w.cron != nil || ctx.Err() == nil) {
 			err = errTransient
 		}
 	}
@@ -370,7 +372,7 @@ func (p *schedProxy) MarkAsDone(ctx context.Context, id string, werr error) erro
 		err = errTransient
 	default:
 		err = p.w.target.MarkAsDone(ctx, id, werr)
-		if f == "fa" {
+		if f == "fa" && (p.w.cron != nil || ctx.Err() == nil) {
 			err = errTransient
 		}
 	}
